@@ -1,5 +1,1068 @@
-(* Lemmas about Model/Refine.v at the real-number instance. *)
+(* Lemmas about Model/Refine.v (what happens to the optimiser's result before it is stored) at the real-number
+   instance [RNumOf lo hi].  The theorems of Properties/C12.v are these lemmas.
+   The optimiser is not modelled: every statement quantifies over ALL raw vectors of the box. *)
 From Coq Require Import Reals Lra List Bool.
 From V Require Import Model.Num Model.NumR Model.DailyCurve Model.Refine Proofs.DailyCurveProofs.
 Import ListNotations.
 Local Open Scope R_scope.
+
+Section RefineFacts.
+Variables lo hi : R.
+Hypothesis Hlo : lo <= 0.
+Hypothesis Hhi : 0 <= hi.
+Notation N := (RNumOf lo hi).
+
+Local Arguments fix_full_model_x : simpl never.
+Local Arguments get_smooth_coeffs : simpl never.
+Local Arguments full_model1 : simpl never.
+Local Arguments get_k : simpl never.
+
+(* decide the comparisons that occur in a goal, using the hypotheses *)
+Ltac dec_R :=
+  repeat match goal with
+         | |- context [Rlt_dec ?a ?b] => destruct (Rlt_dec a b); try lra
+         | |- context [Rle_dec ?a ?b] => destruct (Rle_dec a b); try lra
+         | |- context [Req_EM_T ?a ?b] => destruct (Req_EM_T a b); try lra
+         end.
+
+Lemma pos_of_ne : forall a : R, 0 <= a -> a <> 0 -> 0 < a.
+Proof. intros a [H|H] Hn; [exact H | exfalso; apply Hn; symmetry; exact H]. Qed.
+
+Ltac rq := repeat match goal with
+  | H : ?a = 0 |- context [Reqb ?a 0] => rewrite (proj2 (Reqb_true a 0) H)
+  | H : ?a <> 0 |- context [Reqb ?a 0] => rewrite (proj2 (Reqb_false a 0) H)
+  | |- context [Reqb 0 0] => rewrite (proj2 (Reqb_true 0 0) eq_refl)
+  end.
+
+(* ---------------- get_k *)
+Lemma get_k_spec : forall hbp ph cbp pc Tminseg Tmaxseg : R, hbp <= cbp -> 0 <= ph -> 0 <= pc ->
+  exists hbp' hk cbp' ck : R,
+    get_k N hbp ph cbp pc Tminseg Tmaxseg = (hbp', hk, cbp', ck) /\
+    hbp <= hbp' /\ hbp' <= cbp' /\ cbp' <= cbp /\ 0 <= hk /\ 0 <= ck /\
+    (pc = 0 -> ck = 0) /\ (ph = 0 -> hk = 0).
+Proof.
+  intros hbp ph cbp pc Tminseg Tmaxseg Ho Hph Hpc. unfold get_k.
+  destruct (smooth_coeffs_spec lo hi hbp ph cbp pc Ho Hph Hpc) as (hk & ck & Hs & S1 & S2 & S3 & Z1 & Z2 & _).
+  rewrite Hs. cbn. unfold n_geb. cbn. unfold Rleb, Reqb.
+  repeat (match goal with
+          | |- context [Rle_dec ?a ?b] => destruct (Rle_dec a b)
+          | |- context [Req_EM_T ?a ?b] => destruct (Req_EM_T a b)
+          end; cbn);
+  do 4 eexists; (split; [reflexivity|]); repeat split; intros; try lra; auto.
+Qed.
+
+(* ---------------- fix_full_model_x on any sign-correct vector (crossed balance points are swapped first) *)
+Lemma fix_any : forall hb hbeta hk cb cbeta ck i Tlo Thi : R,
+  0 <= hbeta -> 0 <= cbeta -> 0 <= hk -> 0 <= ck ->
+  exists x : fullx N,
+    fix_full_model_x N (mkfx N hb hbeta hk cb cbeta ck i) Tlo Thi = x /\
+    x_hdd_bp x = Rmin hb cb /\ x_cdd_bp x = Rmax hb cb /\
+    0 <= x_hdd_beta x /\ 0 <= x_cdd_beta x /\ 0 <= x_hdd_k x /\ 0 <= x_cdd_k x /\
+    (x_hdd_beta x = 0 -> x_hdd_k x = 0) /\ (x_cdd_beta x = 0 -> x_cdd_k x = 0) /\
+    x_intercept x = i /\
+    (hb = cb -> x_hdd_beta x = hbeta /\ x_cdd_beta x = cbeta).
+Proof.
+  intros hb hbeta hk cb cbeta ck i Tlo Thi H1 H2 H3 H4.
+  destruct (Rlt_dec cb hb) as [Hc|Hc].
+  - assert (E : fix_full_model_x N (mkfx N hb hbeta hk cb cbeta ck i) Tlo Thi =
+                fix_full_model_x N (mkfx N cb cbeta ck hb hbeta hk i) Tlo Thi).
+    { unfold fix_full_model_x, order_bps, mkfx. cbn. unfold Rltb.
+      destruct (Rlt_dec cb hb); [|lra]. destruct (Rlt_dec hb cb); [lra|]. reflexivity. }
+    rewrite E.
+    destruct (fix_ordered lo hi cb cbeta ck hb hbeta hk i Tlo Thi) as
+      (b1 & k1 & b2 & k2 & Hf & Fb1 & Fb2 & Fk1 & Fk2 & Z1 & Z2 & _ & _ & Fint); [lra|].
+    unfold mkx in Hf. unfold mkfx. rewrite Hf. eexists; split; [reflexivity|]. cbn.
+    rewrite Rmin_right by lra. rewrite Rmax_left by lra.
+    repeat split; auto; try (destruct Fb1, Fb2, Fk1, Fk2; lra); try (intros; lra).
+  - destruct (fix_ordered lo hi hb hbeta hk cb cbeta ck i Tlo Thi) as
+      (b1 & k1 & b2 & k2 & Hf & Fb1 & Fb2 & Fk1 & Fk2 & Z1 & Z2 & _ & _ & Fint); [lra|].
+    unfold mkx in Hf. unfold mkfx. rewrite Hf. eexists; split; [reflexivity|]. cbn.
+    rewrite Rmin_left by lra. rewrite Rmax_right by lra.
+    repeat split; auto; try (destruct Fb1, Fb2, Fk1, Fk2; lra); try (intros E'; apply Fint; left; exact E').
+Qed.
+
+(* ---------------- the statement's list on one stored sub-model *)
+Section WF.
+Variables Tmin Tmax Tminseg Tmaxseg : R.
+Notation tc := (Build_tconstr N Tmin Tmax Tminseg Tmaxseg).
+Variables qlo qhi : R.
+
+Definition wellformed (c : coeffs N) : Prop :=
+  qlo <= intercept c <= qhi /\
+  match model_type c, hdd_bp c, hdd_beta c, hdd_k c, cdd_bp c, cdd_beta c, cdd_k c with
+  | HddTiddCddSmooth, Some hb, Some hbeta, Some hk, Some cb, Some cbeta, Some ck =>
+      T_min tc <= hb /\ hb <= cb /\ cb <= T_max tc /\ 0 < hbeta /\ 0 < cbeta /\ 0 <= hk /\ 0 <= ck /\ (hk <> 0 \/ ck <> 0)
+  | HddTiddCdd, Some hb, Some hbeta, None, Some cb, Some cbeta, None =>
+      T_min tc <= hb /\ hb <= cb /\ cb <= T_max tc /\ 0 < hbeta /\ 0 < cbeta
+  | HddTiddSmooth, Some hb, Some hbeta, Some hk, None, None, None =>
+      T_min tc <= hb <= T_max tc /\ hbeta < 0 /\ 0 < hk
+  | TiddCddSmooth, None, None, None, Some cb, Some cbeta, Some ck =>
+      T_min tc <= cb <= T_max tc /\ 0 < cbeta /\ 0 < ck
+  | HddTidd, Some hb, Some hbeta, None, None, None, None => T_min tc <= hb <= T_max_seg tc /\ hbeta < 0
+  | TiddCdd, None, None, None, Some cb, Some cbeta, None => T_min_seg tc <= cb <= T_max tc /\ 0 < cbeta
+  | Tidd, None, None, None, None, None, None => True
+  | _, _, _, _, _, _, _ => False
+  end.
+
+(* the 7-vector after get_full_model_x, for a raw vector of the box *)
+Definition fixed_ok (x : fullx N) : Prop :=
+  x_hdd_bp x <= x_cdd_bp x /\
+  ((x_hdd_beta x <> 0 \/ x_cdd_beta x <> 0) -> T_min tc <= x_hdd_bp x /\ x_cdd_bp x <= T_max tc) /\
+  0 <= x_hdd_beta x /\ 0 <= x_cdd_beta x /\ 0 <= x_hdd_k x /\ 0 <= x_cdd_k x /\
+  (x_hdd_beta x = 0 -> x_hdd_k x = 0) /\ (x_cdd_beta x = 0 -> x_cdd_k x = 0) /\
+  qlo <= x_intercept x <= qhi.
+
+Definition good_result (r : option (model_key * list R)) : Prop :=
+  exists id x' c, r = Some (id, x') /\ from_np_arrays N id x' = Some c /\ wellformed c.
+
+Hypothesis Hb : bounds_ok lo hi tc.
+
+Lemma reduce_step_ok : forall (rec : fullx N -> option (model_key * list R)) (key : model_key) (x : fullx N),
+  fixed_ok x ->
+  (key = KFullSmooth -> forall y, fixed_ok y -> x_hdd_k y = 0 -> x_cdd_k y = 0 -> good_result (rec y)) ->
+  good_result (reduce_step N rec x (T_min_seg tc) (T_max_seg tc) key).
+Proof.
+  intros rec key [hbp hbeta ph cbp cbeta pc i] (F1 & F2 & F3 & F4 & F5 & F6 & F7 & F8 & F9) Hrec.
+  cbn in F1, F2, F3, F4, F5, F6, F7, F8, F9.
+  destruct Hb as (B1 & B2 & B3). cbn in B1, B2, B3. cbn [T_min T_max T_min_seg T_max_seg] in *. change (carrier N) with R in *.
+  unfold reduce_step. cbn [x_hdd_bp x_hdd_beta x_hdd_k x_cdd_bp x_cdd_beta x_cdd_k x_intercept].
+  unfold n_neqb. change (@n_eqb N) with Reqb. change (@n_zero N) with 0.
+  destruct (Req_EM_T hbeta 0) as [Eh|Eh]; destruct (Req_EM_T cbeta 0) as [Ec|Ec].
+  - (* both slopes zero: tidd *)
+    subst. rewrite (proj2 (Reqb_true 0 0) eq_refl). cbn.
+    exists KTidd, [i], (Build_coeffs N Tidd i None None None None None None).
+    split; [reflexivity|]. split; [reflexivity|]. split; [exact F9 | exact I].
+  - (* cooling only *)
+    assert (Hph : ph = 0) by auto. subst hbeta ph.
+    destruct (F2 (or_intror Ec)) as [R1 R2]. pose proof (pos_of_ne cbeta F4 Ec) as Pc.
+    rq. cbn [negb andb orb].
+    destruct (Req_EM_T pc 0) as [Ek|Ek]; [|pose proof (pos_of_ne pc F6 Ek) as Pk]; rq; cbn [negb andb orb].
+    + (* unsmoothed *)
+      unfold n_leb. cbn. unfold Rleb.
+      eexists KC, _, _. split; [reflexivity|]. cbn. unfold Rltb. destruct (Rlt_dec cbeta 0); [exfalso; lra|].
+      split; [reflexivity|]. split; [exact F9|]. cbn.
+      destruct (Rle_dec cbp Tminseg); lra.
+    + destruct key; try (
+        eexists KCSmooth, _, _; split; [reflexivity|]; cbn; unfold Rltb; destruct (Rlt_dec cbeta 0); [exfalso; lra|];
+        split; [reflexivity|]; split; [exact F9|]; cbn; lra).
+      destruct (get_k_spec hbp 0 cbp pc Tminseg Tmaxseg F1 (Rle_refl 0) F6)
+        as (hbp' & hk & cbp' & ck & Hg & G1 & G2 & G3 & G4 & G5 & G6 & G7).
+      rewrite Hg. assert (hk = 0) by auto. subst hk. rq. cbn [andb].
+      destruct (Req_EM_T ck 0) as [Ek2|Ek2]; [|pose proof (pos_of_ne ck G5 Ek2) as Pk2]; rq.
+      * apply (Hrec eq_refl); [|reflexivity|exact Ek2]. unfold fixed_ok; cbn. subst ck.
+        repeat split; try lra; auto.
+      * eexists KCSmooth, _, _; split; [reflexivity|]; cbn; unfold Rltb; destruct (Rlt_dec cbeta 0); [exfalso; lra|].
+        split; [reflexivity|]; split; [exact F9|]; cbn; lra.
+  - (* heating only *)
+    assert (Hpc : pc = 0) by auto. subst cbeta pc.
+    destruct (F2 (or_introl Eh)) as [R1 R2]. pose proof (pos_of_ne hbeta F3 Eh) as Ph.
+    rq. cbn [negb andb orb].
+    destruct (Req_EM_T ph 0) as [Ek|Ek]; [|pose proof (pos_of_ne ph F5 Ek) as Pk]; rq; cbn [negb andb orb].
+    + unfold n_geb, n_leb. cbn. unfold Rleb.
+      eexists KC, _, _. split; [reflexivity|]. cbn. unfold Rltb. destruct (Rlt_dec (- hbeta) 0); [|exfalso; lra].
+      split; [reflexivity|]. split; [exact F9|]. cbn.
+      destruct (Rle_dec Tmaxseg hbp); lra.
+    + destruct key; try (
+        eexists KCSmooth, _, _; split; [reflexivity|]; cbn; unfold Rltb; destruct (Rlt_dec (- hbeta) 0); [|exfalso; lra];
+        split; [reflexivity|]; split; [exact F9|]; cbn; lra).
+      destruct (get_k_spec hbp ph cbp 0 Tminseg Tmaxseg F1 F5 (Rle_refl 0))
+        as (hbp' & hk & cbp' & ck & Hg & G1 & G2 & G3 & G4 & G5 & G6 & G7).
+      rewrite Hg. assert (ck = 0) by auto. subst ck.
+      destruct (Req_EM_T hk 0) as [Ek2|Ek2]; [|pose proof (pos_of_ne hk G4 Ek2) as Pk2]; rq; cbn [andb].
+      * apply (Hrec eq_refl); [|exact Ek2|reflexivity]. unfold fixed_ok; cbn. subst hk.
+        repeat split; try lra; auto.
+      * eexists KCSmooth, _, _; split; [reflexivity|]; cbn; unfold Rltb; destruct (Rlt_dec (- hbeta) 0); [|exfalso; lra].
+        split; [reflexivity|]; split; [exact F9|]; cbn; lra.
+  - (* both slopes *)
+    destruct (F2 (or_introl Eh)) as [R1 R2]. pose proof (pos_of_ne hbeta F3 Eh) as Ph. pose proof (pos_of_ne cbeta F4 Ec) as Pc.
+    rq. cbn [negb andb orb].
+    destruct (Req_EM_T ph 0) as [Ek|Ek]; destruct (Req_EM_T pc 0) as [Ek'|Ek']; rq; cbn [negb andb orb].
+    + eexists KFull, _, _. split; [reflexivity|]. cbn. unfold Rltb. destruct (Rlt_dec cbp hbp); [exfalso; lra|].
+      split; [reflexivity|]. split; [exact F9|]. cbn. lra.
+    + eexists KFullSmooth, _, _. split; [reflexivity|]. cbn. unfold Rltb. destruct (Rlt_dec cbp hbp); [exfalso; lra|].
+      split; [reflexivity|]. split; [exact F9|]. cbn. repeat split; try lra; try (right; exact Ek').
+    + eexists KFullSmooth, _, _. split; [reflexivity|]. cbn. unfold Rltb. destruct (Rlt_dec cbp hbp); [exfalso; lra|].
+      split; [reflexivity|]. split; [exact F9|]. cbn. repeat split; try lra; try (left; exact Ek).
+    + eexists KFullSmooth, _, _. split; [reflexivity|]. cbn. unfold Rltb. destruct (Rlt_dec cbp hbp); [exfalso; lra|].
+      split; [reflexivity|]. split; [exact F9|]. cbn. repeat split; try lra; try (left; exact Ek).
+Qed.
+
+
+Lemma reduce_model_ok : forall (key : model_key) (x : fullx N), fixed_ok x ->
+  good_result (reduce_model N x Tminseg Tmaxseg key).
+Proof.
+  intros key x F. unfold reduce_model. apply reduce_step_ok; [exact F|].
+  intros _ y Fy _ _. apply reduce_step_ok; [exact Fy|]. intros E; discriminate E.
+Qed.
+
+
+(* ---------------- the box of the fit functions (widest form: balance points anywhere in the observed range) *)
+Definition box_spec (key : model_key) (raw : list R) : Prop :=
+  match key, raw with
+  | KFullSmooth, [hb; hbeta; ph; cb; cbeta; pc; i] =>
+      Tmin <= hb <= Tmax /\ Tmin <= cb <= Tmax /\ 0 <= hbeta /\ 0 <= cbeta /\ 0 <= ph /\ 0 <= pc /\ qlo <= i <= qhi
+  | KFull, [hb; hbeta; cb; cbeta; i] =>
+      Tmin <= hb <= Tmax /\ Tmin <= cb <= Tmax /\ 0 <= hbeta /\ 0 <= cbeta /\ qlo <= i <= qhi
+  | KCSmooth, [bp; beta; k; i] => Tmin <= bp <= Tmax /\ 0 <= k /\ qlo <= i <= qhi
+  | KC, [bp; beta; i] => Tmin <= bp <= Tmax /\ qlo <= i <= qhi
+  | KTidd, [i] => qlo <= i <= qhi
+  | _, _ => False
+  end.
+
+Lemma get_full_model_x_ok : forall key raw, box_spec key raw ->
+  exists x, get_full_model_x N key raw Tmin Tmax Tminseg Tmaxseg = Some x /\ fixed_ok x.
+Proof.
+  intros key raw B. destruct Hb as (B1 & B2 & B3). cbn in B1, B2, B3.
+  destruct key; cbn in B.
+  - destruct raw as [|hb [|hbeta [|ph [|cb [|cbeta [|pc [|i [|]]]]]]]]; try contradiction.
+    destruct B as (P1 & P2 & P3 & P4 & P5 & P6 & P7).
+    unfold get_full_model_x.
+    destruct (fix_any hb hbeta ph cb cbeta pc i Tmin Tmax P3 P4 P5 P6) as (x & Hx & X1 & X2 & X3 & X4 & X5 & X6 & X7 & X8 & X9 & _).
+    unfold mkfx in Hx. rewrite Hx. exists x. split; [reflexivity|]. unfold fixed_ok. cbn [T_min T_max].
+    rewrite X1, X2, X9.
+    pose proof (Rmin_l hb cb). pose proof (Rmin_r hb cb). pose proof (Rmax_l hb cb). pose proof (Rmax_r hb cb).
+    assert (Rmin hb cb = hb \/ Rmin hb cb = cb) by (unfold Rmin; destruct (Rle_dec hb cb); auto).
+    assert (Rmax hb cb = hb \/ Rmax hb cb = cb) by (unfold Rmax; destruct (Rle_dec hb cb); auto).
+    repeat split; auto; try lra; try (destruct H3, H4; lra).
+  - destruct raw as [|hb [|hbeta [|cb [|cbeta [|i [|]]]]]]; try contradiction.
+    destruct B as (P1 & P2 & P3 & P4 & P7).
+    unfold get_full_model_x. change (@n_zero N) with 0.
+    destruct (fix_any hb hbeta 0 cb cbeta 0 i Tmin Tmax P3 P4 (Rle_refl 0) (Rle_refl 0)) as (x & Hx & X1 & X2 & X3 & X4 & X5 & X6 & X7 & X8 & X9 & _).
+    unfold mkfx in Hx. rewrite Hx. exists x. split; [reflexivity|]. unfold fixed_ok. cbn [T_min T_max].
+    rewrite X1, X2, X9.
+    pose proof (Rmin_l hb cb). pose proof (Rmin_r hb cb). pose proof (Rmax_l hb cb). pose proof (Rmax_r hb cb).
+    assert (Rmin hb cb = hb \/ Rmin hb cb = cb) by (unfold Rmin; destruct (Rle_dec hb cb); auto).
+    assert (Rmax hb cb = hb \/ Rmax hb cb = cb) by (unfold Rmax; destruct (Rle_dec hb cb); auto).
+    repeat split; auto; try lra; try (destruct H3, H4; lra).
+  - destruct raw as [|bp [|beta [|k [|i [|]]]]]; try contradiction.
+    destruct B as (P1 & P2 & P7).
+    unfold get_full_model_x. change (@n_zero N) with 0. change (@n_ltb N beta 0) with (Rltb beta 0). unfold Rltb.
+    destruct (Rlt_dec beta 0) as [Hn|Hn].
+    + destruct (fix_any bp (- beta) k bp 0 0 i Tmin Tmax) as (x & Hx & X1 & X2 & X3 & X4 & X5 & X6 & X7 & X8 & X9 & _); try lra.
+      unfold mkfx in Hx. change (@n_opp N beta) with (- beta). rewrite Hx. exists x. split; [reflexivity|].
+      unfold fixed_ok. cbn [T_min T_max]. rewrite X1, X2, X9. rewrite Rmin_left, Rmax_left by lra.
+      repeat split; auto; lra.
+    + destruct (fix_any bp 0 0 bp beta k i Tmin Tmax) as (x & Hx & X1 & X2 & X3 & X4 & X5 & X6 & X7 & X8 & X9 & _); try lra.
+      unfold mkfx in Hx. rewrite Hx. exists x. split; [reflexivity|].
+      unfold fixed_ok. cbn [T_min T_max]. rewrite X1, X2, X9. rewrite Rmin_left, Rmax_left by lra.
+      repeat split; auto; lra.
+  - destruct raw as [|bp [|beta [|i [|]]]]; try contradiction.
+    destruct B as (P1 & P7).
+    unfold get_full_model_x. change (@n_zero N) with 0. unfold n_gtb.
+    change (@n_ltb N) with Rltb. unfold Rltb.
+    set (bp' := if (if Rlt_dec bp Tminseg then true else false) then Tminseg
+                else if (if Rlt_dec Tmaxseg bp then true else false) then Tmaxseg else bp).
+    assert (Hbp' : Tmin <= bp' <= Tmax).
+    { unfold bp'. destruct (Rlt_dec bp Tminseg); [lra|]. destruct (Rlt_dec Tmaxseg bp); lra. }
+    destruct (Rlt_dec beta 0) as [Hn|Hn].
+    + destruct (fix_any bp' (- beta) 0 bp' 0 0 i Tmin Tmax) as (x & Hx & X1 & X2 & X3 & X4 & X5 & X6 & X7 & X8 & X9 & _); try lra.
+      unfold mkfx in Hx. change (@n_opp N beta) with (- beta). exists x. split; [apply f_equal; exact Hx|].
+      unfold fixed_ok. cbn [T_min T_max]. rewrite X1, X2, X9. rewrite Rmin_left, Rmax_left by lra.
+      repeat split; auto; lra.
+    + destruct (fix_any bp' 0 0 bp' beta 0 i Tmin Tmax) as (x & Hx & X1 & X2 & X3 & X4 & X5 & X6 & X7 & X8 & X9 & _); try lra.
+      unfold mkfx in Hx. exists x. split; [apply f_equal; exact Hx|].
+      unfold fixed_ok. cbn [T_min T_max]. rewrite X1, X2, X9. rewrite Rmin_left, Rmax_left by lra.
+      repeat split; auto; lra.
+  - destruct raw as [|i [|]]; try contradiction.
+    unfold get_full_model_x. change (@n_zero N) with 0.
+    destruct (fix_any 0 0 0 0 0 0 i Tmin Tmax) as (x & Hx & X1 & X2 & X3 & X4 & X5 & X6 & X7 & X8 & X9 & Xe); try lra.
+    unfold mkfx in Hx. rewrite Hx. exists x. split; [reflexivity|].
+    destruct (Xe eq_refl) as [Z1 Z2].
+    unfold fixed_ok. cbn [T_min T_max]. rewrite X1, X2, X9, Z1, Z2. rewrite Rmin_left, Rmax_left by lra.
+    repeat split; auto; try lra; intros [Hne|Hne]; exfalso; apply Hne; reflexivity.
+Qed.
+
+(* C12: the stored sub-model of ANY optimiser outcome inside the box is admissible and well formed *)
+Theorem refine_admissible : forall key raw, box_spec key raw ->
+  exists c, named_coeffs N key raw tc = Some c /\ wellformed c.
+Proof.
+  intros key raw B. destruct (get_full_model_x_ok key raw B) as (x & Hx & F).
+  destruct (reduce_model_ok key x F) as (id & x' & c & Hr & Hc & W).
+  exists c. split; [|exact W].
+  unfold named_coeffs, refine. cbn [T_min T_max T_min_seg T_max_seg]. rewrite Hx, Hr. exact Hc.
+Qed.
+
+
+(* ---------------- the box the fit functions hand to the optimiser implies box_spec *)
+Section BoxSound.
+(* utilities/base_model.py: fix_identical_bnds, not modelled: only "a non-degenerate row is left alone" is used *)
+Variable fix_identical : R * R -> R * R.
+Hypothesis fix_identical_nondegenerate : forall r : R * R, fst r < snd r -> fix_identical r = r.
+Variables Tlo Thi : R.
+Hypothesis HT : Tmin <= Tlo /\ Tlo <= Thi /\ Thi <= Tmax.
+Hypothesis Hq : qlo < qhi.
+
+Lemma f_sorted_row : forall a b : R, a < b -> fix_identical (sort_row N (a, b)) = (a, b).
+Proof.
+  intros a b H. unfold sort_row. cbn. unfold Rltb. destruct (Rlt_dec b a); [lra|].
+  apply fix_identical_nondegenerate. cbn. exact H.
+Qed.
+
+Lemma clip_lower_0_nonneg : forall r : R * R, 0 <= fst (clip_lower_0 N r).
+Proof.
+  intros [a b]. unfold clip_lower_0. cbn. unfold Rltb. destruct (Rlt_dec a 0); cbn; lra.
+Qed.
+
+Lemma in_box_cons : forall (lo' hi' v : R) bs xs,
+  in_box N ((lo', hi') :: bs) (v :: xs) = true -> lo' <= v <= hi' /\ in_box N bs xs = true.
+Proof.
+  intros lo' hi' v bs xs H. cbn in H. apply andb_true_iff in H. destruct H as [H H3].
+  apply andb_true_iff in H. destruct H as [H1 H2].
+  change (@n_leb N lo' v) with (Rleb lo' v) in H1. change (@n_leb N v hi') with (Rleb v hi') in H2.
+  apply Rleb_true in H1, H2. auto.
+Qed.
+
+Lemma in_box_cons' : forall (r : R * R) (v : R) bs xs,
+  in_box N (r :: bs) (v :: xs) = true -> fst r <= v <= snd r /\ in_box N bs xs = true.
+Proof. intros [a b] v bs xs H. apply in_box_cons in H. exact H. Qed.
+
+Lemma in_box_length : forall bs xs, in_box N bs xs = true -> length xs = length bs.
+Proof.
+  induction bs as [|[a b] bs IH]; intros [|v xs] H; cbn in H; try discriminate; try reflexivity.
+  apply andb_true_iff in H. destruct H as [_ H]. cbn. f_equal. apply IH. exact H.
+Qed.
+
+Theorem box_sound_full_smooth : forall nb r1 r2 r4 r5 B raw, Tlo < Thi ->
+  update_bnds_full_smooth N fix_identical nb [(Tlo, Thi); r1; r2; (Tlo, Thi); r4; r5; (qlo, qhi)] = Some B ->
+  in_box N B raw = true -> box_spec KFullSmooth raw.
+Proof.
+  intros nb r1 r2 r4 r5 B raw Hlt HB Hin. unfold update_bnds_full_smooth in HB.
+  destruct nb as [|n0 [|n1 [|n2 [|n3 [|n4 [|n5 [|n6 [|]]]]]]]]; try discriminate.
+  injection HB as HB. subst B. rewrite !f_sorted_row in Hin by assumption.
+  pose proof (in_box_length _ _ Hin) as HL.
+  destruct raw as [|hb [|hbeta [|ph [|cb [|cbeta [|pc [|i [|]]]]]]]]; try discriminate HL.
+  apply in_box_cons in Hin. destruct Hin as [I0 Hin].
+  apply in_box_cons' in Hin. destruct Hin as [I1 Hin].
+  apply in_box_cons' in Hin. destruct Hin as [I2 Hin].
+  apply in_box_cons in Hin. destruct Hin as [I3 Hin].
+  apply in_box_cons' in Hin. destruct Hin as [I4 Hin].
+  apply in_box_cons' in Hin. destruct Hin as [I5 Hin].
+  apply in_box_cons in Hin. destruct Hin as [I6 _].
+  pose proof (clip_lower_0_nonneg (fix_identical (sort_row N n1))).
+  pose proof (clip_lower_0_nonneg (fix_identical (sort_row N n2))).
+  pose proof (clip_lower_0_nonneg (fix_identical (sort_row N n4))).
+  pose proof (clip_lower_0_nonneg (fix_identical (sort_row N n5))).
+  destruct HT as (HT1 & HT2 & HT3). cbn in *. repeat split; lra.
+Qed.
+
+Theorem box_sound_full : forall nb r1 r3 B raw, Tlo < Thi ->
+  update_bnds_full N fix_identical nb [(Tlo, Thi); r1; (Tlo, Thi); r3; (qlo, qhi)] = Some B ->
+  in_box N B raw = true -> box_spec KFull raw.
+Proof.
+  intros nb r1 r3 B raw Hlt HB Hin. unfold update_bnds_full in HB.
+  destruct nb as [|n0 [|n1 [|n2 [|n3 [|n4 [|]]]]]]; try discriminate.
+  injection HB as HB. subst B. rewrite !f_sorted_row in Hin by assumption.
+  pose proof (in_box_length _ _ Hin) as HL.
+  destruct raw as [|hb [|hbeta [|cb [|cbeta [|i [|]]]]]]; try discriminate HL.
+  apply in_box_cons in Hin. destruct Hin as [I0 Hin].
+  apply in_box_cons' in Hin. destruct Hin as [I1 Hin].
+  apply in_box_cons in Hin. destruct Hin as [I2 Hin].
+  apply in_box_cons' in Hin. destruct Hin as [I3 Hin].
+  apply in_box_cons in Hin. destruct Hin as [I4 _].
+  pose proof (clip_lower_0_nonneg (fix_identical (sort_row N n1))).
+  pose proof (clip_lower_0_nonneg (fix_identical (sort_row N n3))).
+  destruct HT as (HT1 & HT2 & HT3). cbn in *. repeat split; lra.
+Qed.
+
+(* one-sided layouts: also when the balance point is pinned by identical bounds (Tlo = Thi) *)
+Lemma keep_pinned_row : keep_pinned N (Tlo, Thi) (fix_identical (sort_row N (Tlo, Thi))) = (Tlo, Thi).
+Proof.
+  unfold keep_pinned. cbn. unfold Reqb. destruct (Req_EM_T Tlo Thi) as [E|E]; [reflexivity|].
+  apply f_sorted_row. lra.
+Qed.
+
+Theorem box_sound_c_smooth : forall nb r1 r2 B raw,
+  update_bnds_c_smooth N fix_identical nb [(Tlo, Thi); r1; r2; (qlo, qhi)] = Some B ->
+  in_box N B raw = true -> box_spec KCSmooth raw.
+Proof.
+  intros nb r1 r2 B raw HB Hin. unfold update_bnds_c_smooth in HB.
+  destruct nb as [|n0 [|n1 [|n2 [|n3 [|]]]]]; try discriminate.
+  injection HB as HB. subst B. rewrite keep_pinned_row in Hin. rewrite f_sorted_row in Hin by assumption.
+  pose proof (in_box_length _ _ Hin) as HL.
+  destruct raw as [|bp [|beta [|k [|i [|]]]]]; try discriminate HL.
+  apply in_box_cons in Hin. destruct Hin as [I0 Hin].
+  apply in_box_cons' in Hin. destruct Hin as [I1 Hin].
+  apply in_box_cons' in Hin. destruct Hin as [I2 Hin].
+  apply in_box_cons in Hin. destruct Hin as [I3 _].
+  pose proof (clip_lower_0_nonneg (fix_identical (sort_row N n2))).
+  destruct HT as (HT1 & HT2 & HT3). cbn in *. repeat split; lra.
+Qed.
+
+Theorem box_sound_c : forall nb r1 B raw,
+  update_bnds_c N fix_identical nb [(Tlo, Thi); r1; (qlo, qhi)] = Some B ->
+  in_box N B raw = true -> box_spec KC raw.
+Proof.
+  intros nb r1 B raw HB Hin. unfold update_bnds_c in HB.
+  destruct nb as [|n0 [|n1 [|n2 [|]]]]; try discriminate.
+  injection HB as HB. subst B. rewrite keep_pinned_row in Hin. rewrite f_sorted_row in Hin by assumption.
+  pose proof (in_box_length _ _ Hin) as HL.
+  destruct raw as [|bp [|beta [|i [|]]]]; try discriminate HL.
+  apply in_box_cons in Hin. destruct Hin as [I0 Hin].
+  apply in_box_cons' in Hin. destruct Hin as [I1 Hin].
+  apply in_box_cons in Hin. destruct Hin as [I2 _].
+  destruct HT as (HT1 & HT2 & HT3). cbn in *. repeat split; lra.
+Qed.
+
+Theorem box_sound_tidd : forall B raw,
+  update_bnds_tidd N fix_identical [(qlo, qhi)] = Some B -> in_box N B raw = true -> box_spec KTidd raw.
+Proof.
+  intros B raw HB Hin. unfold update_bnds_tidd in HB. injection HB as HB. subst B.
+  rewrite f_sorted_row in Hin by assumption.
+  pose proof (in_box_length _ _ Hin) as HL.
+  destruct raw as [|i [|]]; try discriminate HL.
+  apply in_box_cons in Hin. destruct Hin as [I0 _]. cbn. lra.
+Qed.
+End BoxSound.
+
+
+(* ---------------- the pinned one-sided balance point (fit_c_hdd_tidd gives the optimiser the degenerate bounds
+   [T_max, T_max] for a building that heats over its whole range; reduce_model stores T_max_seg instead) *)
+Lemma pinned_named : forall beta i : R, beta < 0 -> Tminseg <= Tmaxseg -> Tmaxseg <= Tmax ->
+  named_coeffs N KC [Tmax; beta; i] tc = Some (Build_coeffs N HddTidd i (Some Tmaxseg) (Some beta) None None None None).
+Proof.
+  intros beta i Hbeta S1 S2.
+  unfold named_coeffs, refine, get_full_model_x. cbn [T_min T_max T_min_seg T_max_seg].
+  change (@n_zero N) with 0. unfold n_gtb. change (@n_ltb N) with Rltb. change (@n_opp N beta) with (- beta).
+  unfold Rltb. destruct (Rlt_dec Tmax Tminseg); [lra|]. destruct (Rlt_dec beta 0); [|lra].
+  destruct (Rlt_dec Tmaxseg Tmax) as [Hs|Hs].
+  - destruct (fix_ordered lo hi Tmaxseg (- beta) 0 Tmaxseg 0 0 i Tmin Tmax (Rle_refl _))
+      as (b1 & k1 & b2 & k2 & Hf & Fb1 & Fb2 & Fk1 & Fk2 & Z1 & Z2 & _ & _ & Fint).
+    unfold mkx in Hf. rewrite Hf. destruct (Fint (or_introl eq_refl)) as [I1 I2].
+    assert (k1 = 0) by (destruct Fk1; assumption). assert (k2 = 0) by (destruct Fk2; assumption). subst b1 b2 k1 k2.
+    unfold reduce_model, reduce_step. cbn [x_hdd_bp x_hdd_beta x_hdd_k x_cdd_bp x_cdd_beta x_cdd_k x_intercept].
+    unfold n_neqb, n_geb. change (@n_eqb N) with Reqb. change (@n_leb N) with Rleb. change (@n_zero N) with 0.
+    assert (Hne : - beta <> 0) by lra. rq. cbn [negb andb orb].
+    unfold Rleb. destruct (Rle_dec Tmaxseg Tmaxseg); [|lra].
+    cbn. change (@n_opp N (- beta)) with (- - beta). unfold Rltb. destruct (Rlt_dec (- - beta) 0); [|lra].
+    rewrite Ropp_involutive. reflexivity.
+  - assert (Tmaxseg = Tmax) by lra. subst Tmaxseg.
+    destruct (fix_ordered lo hi Tmax (- beta) 0 Tmax 0 0 i Tmin Tmax (Rle_refl _))
+      as (b1 & k1 & b2 & k2 & Hf & Fb1 & Fb2 & Fk1 & Fk2 & Z1 & Z2 & _ & _ & Fint).
+    unfold mkx in Hf. rewrite Hf. destruct (Fint (or_introl eq_refl)) as [I1 I2].
+    assert (k1 = 0) by (destruct Fk1; assumption). assert (k2 = 0) by (destruct Fk2; assumption). subst b1 b2 k1 k2.
+    unfold reduce_model, reduce_step. cbn [x_hdd_bp x_hdd_beta x_hdd_k x_cdd_bp x_cdd_beta x_cdd_k x_intercept].
+    unfold n_neqb, n_geb. change (@n_eqb N) with Reqb. change (@n_leb N) with Rleb. change (@n_zero N) with 0.
+    assert (Hne : - beta <> 0) by lra. rq. cbn [negb andb orb].
+    unfold Rleb. destruct (Rle_dec Tmax Tmax); [|lra].
+    cbn. change (@n_opp N (- beta)) with (- - beta). unfold Rltb. destruct (Rlt_dec (- - beta) 0); [|lra].
+    rewrite Ropp_involutive. reflexivity.
+Qed.
+
+(* what the optimiser scored: the heating line through (T_max, intercept), on both sides *)
+Lemma pinned_scored : forall beta i T : R, beta < 0 ->
+  scored_curve N KC [Tmax; beta; i] tc T = Some (i + - beta * (Tmax - T)).
+Proof.
+  intros beta i T Hbeta. unfold scored_curve, scored_x. change (@n_zero N) with 0.
+  change (@n_ltb N beta 0) with (Rltb beta 0). unfold Rltb. destruct (Rlt_dec beta 0); [|lra].
+  cbn [T_min T_max]. f_equal. change (@n_opp N beta) with (- beta).
+  apply (full_model1_corner_unsmoothed lo hi Tmax (- beta) 0 0 i Tmin Tmax T (Rle_refl _)). lra.
+Qed.
+
+(* what is stored: a hinge at T_max_seg with the same intercept *)
+Lemma pinned_stored : forall beta i T : R, beta < 0 -> Tmin <= Tminseg -> Tminseg <= Tmaxseg -> Tmaxseg < Tmax ->
+  stored_curve N KC [Tmax; beta; i] tc T = Some (i + - beta * pos (Tmaxseg - T)).
+Proof.
+  intros beta i T Hbeta S0 S1 S2. unfold stored_curve. rewrite pinned_named by lra.
+  set (c := Build_coeffs N HddTidd i (Some Tmaxseg) (Some beta) None None None None).
+  assert (A : admissible lo hi c tc).
+  { unfold admissible, bounds_ok, c. cbn. lra. }
+  assert (O : off_corner lo hi c tc).
+  { apply upper_below_Tmax_off_corner; [exact A | unfold upper_bp, c; cbn; lra]. }
+  rewrite (predict_closed lo hi Hlo Hhi c tc A O T).
+  destruct (effective_good lo hi c tc A) as (x & Hx & G & I & L & U & S1' & S2' & Sint & Hbp & Hk).
+  unfold eff. rewrite Hx.
+  assert (Hi : interior lo hi c tc) by (left; reflexivity).
+  destruct (Sint Hi) as [E1 E2]. cbn in Hbp, Hk. destruct Hbp as [P1 P2]. destruct Hk as [K1 K2].
+  unfold heat_part, cool_part. rewrite E1, E2, P1, P2, K1, K2.
+  unfold heat_slope, cool_slope, lower_bp, upper_bp, c. cbn.
+  f_equal. rewrite !branch_k0. ring.
+Qed.
+
+(* hence on the fitted days at or below T_max_seg the stored curve is the scored one shifted down by a constant *)
+Theorem pinned_readback : forall beta i T : R, beta < 0 -> Tmin <= Tminseg -> Tminseg <= Tmaxseg -> Tmaxseg < Tmax ->
+  T <= Tmaxseg ->
+  exists sc st, scored_curve N KC [Tmax; beta; i] tc T = Some sc /\ stored_curve N KC [Tmax; beta; i] tc T = Some st /\
+                sc - st = - beta * (Tmax - Tmaxseg) /\ 0 < sc - st.
+Proof.
+  intros beta i T Hbeta S0 S1 S2 HT.
+  exists (i + - beta * (Tmax - T)), (i + - beta * pos (Tmaxseg - T)).
+  split; [apply pinned_scored; exact Hbeta|]. split; [apply pinned_stored; assumption|].
+  rewrite pos_of_nonneg by lra.
+  assert (0 < - beta * (Tmax - Tmaxseg)) by (apply Rmult_lt_0_compat; lra).
+  split; [ring | lra].
+Qed.
+End WF.
+End RefineFacts.
+
+(* ------------------------------------------------------------------------------------------ *)
+(* Read-back: when do the kept coefficients describe the curve the optimiser scored?            *)
+(* ------------------------------------------------------------------------------------------ *)
+
+Section Readback.
+Variables lo hi : R.
+Hypothesis Hlo : lo <= 0.
+Hypothesis Hhi : 0 <= hi.
+Notation N := (RNumOf lo hi).
+Local Arguments fix_full_model_x : simpl never.
+Local Arguments get_smooth_coeffs : simpl never.
+Local Arguments full_model1 : simpl never.
+Local Arguments get_k : simpl never.
+
+Ltac rq := repeat match goal with
+  | H : ?a = 0 |- context [Reqb ?a 0] => rewrite (proj2 (Reqb_true a 0) H)
+  | H : ?a <> 0 |- context [Reqb ?a 0] => rewrite (proj2 (Reqb_false a 0) H)
+  | |- context [Reqb 0 0] => rewrite (proj2 (Reqb_true 0 0) eq_refl)
+  end.
+
+(* fix_full_model_x leaves an interior, sign-correct vector alone *)
+Lemma fix_identity : forall hb hbeta hk cb cbeta ck i Tlo Thi : R,
+  hb <= cb -> (hb = cb \/ (Tlo < hb /\ cb < Thi)) -> (hbeta = 0 -> hk = 0) -> (cbeta = 0 -> ck = 0) ->
+  fix_full_model_x N (mkfx N hb hbeta hk cb cbeta ck i) Tlo Thi = mkfx N hb hbeta hk cb cbeta ck i.
+Proof.
+  intros hb hbeta hk cb cbeta ck i Tlo Thi Ho Hint Z1 Z2.
+  destruct (fix_ordered lo hi hb hbeta hk cb cbeta ck i Tlo Thi Ho)
+    as (b1 & k1 & b2 & k2 & Hf & Fb1 & Fb2 & Fk1 & Fk2 & Y1 & Y2 & K1 & K2 & Fint).
+  unfold mkx in Hf. unfold mkfx. rewrite Hf. destruct (Fint Hint) as [I1 I2]. subst b1 b2.
+  assert (k1 = hk). { destruct (Req_EM_T hbeta 0) as [E|E]; [rewrite (Y1 E), (Z1 E); reflexivity | exact (K1 E)]. }
+  assert (k2 = ck). { destruct (Req_EM_T cbeta 0) as [E|E]; [rewrite (Y2 E), (Z2 E); reflexivity | exact (K2 E)]. }
+  subst. reflexivity.
+Qed.
+
+(* two sign-correct ordered vectors outside the corner with the same live sides have the same curve *)
+Definition same_sides (x y : fullx N) : Prop :=
+  x_intercept x = x_intercept y /\
+  x_hdd_beta x = x_hdd_beta y /\ (x_hdd_beta x <> 0 -> x_hdd_bp x = x_hdd_bp y /\ x_hdd_k x = x_hdd_k y) /\
+  x_cdd_beta x = x_cdd_beta y /\ (x_cdd_beta x <> 0 -> x_cdd_bp x = x_cdd_bp y /\ x_cdd_k x = x_cdd_k y).
+
+Lemma branch_beta0 : forall k d : R, branch lo 0 k d = 0.
+Proof. intros. unfold branch. ring. Qed.
+
+Lemma same_sides_curve : forall (x y : fullx N) (Tmin Tmax T : R),
+  good lo hi x -> good lo hi y -> x_cdd_bp x < Tmax -> x_cdd_bp y < Tmax -> same_sides x y ->
+  full_model1 N x Tmin Tmax T = full_model1 N y Tmin Tmax T.
+Proof.
+  intros [a1 b1 k1 c1 d1 l1 i1] [a2 b2 k2 c2 d2 l2 i2] Tmin Tmax T
+         (G1 & G2 & G3 & G4 & G5) (H1 & H2 & H3 & H4 & H5) O1 O2 (S0 & S1 & S2 & S3 & S4).
+  cbn in *.
+  pose proof (full_model1_curve lo hi Hlo Hhi a1 b1 k1 c1 d1 l1 i1 Tmin Tmax T G1 G2 G3 G4 G5) as P1.
+  pose proof (full_model1_curve lo hi Hlo Hhi a2 b2 k2 c2 d2 l2 i2 Tmin Tmax T H1 H2 H3 H4 H5) as P2.
+  unfold mkx in P1, P2. rewrite P1 by (left; intros; lra). rewrite P2 by (left; intros; lra).
+  unfold curve. subst i2 b2 d2.
+  assert (E1 : branch lo b1 k1 (pos (a1 - T)) = branch lo b1 k2 (pos (a2 - T))).
+  { destruct (Req_EM_T b1 0) as [E|E]; [subst; rewrite !branch_beta0; reflexivity|].
+    destruct (S2 E) as [-> ->]. reflexivity. }
+  assert (E2 : branch lo d1 l1 (pos (T - c1)) = branch lo d1 l2 (pos (T - c2))).
+  { destruct (Req_EM_T d1 0) as [E|E]; [subst; rewrite !branch_beta0; reflexivity|].
+    destruct (S4 E) as [-> ->]. reflexivity. }
+  rewrite E1, E2. reflexivity.
+Qed.
+
+(* ---------------- reduce_step, branch by branch *)
+Section Branches.
+Variable rec : fullx N -> option (model_key * list R).
+Variables hb hbeta ph cb cbeta pc i s1 s2 : R.
+Notation x := (mkfx N hb hbeta ph cb cbeta pc i).
+
+Ltac rs := unfold reduce_step, mkfx;
+  cbn [x_hdd_bp x_hdd_beta x_hdd_k x_cdd_bp x_cdd_beta x_cdd_k x_intercept];
+  unfold n_neqb; change (@n_eqb N) with Reqb; change (@n_zero N) with 0; rq; cbn [negb andb orb].
+
+Lemma rs_full_smooth : forall key, hbeta <> 0 -> cbeta <> 0 -> (ph <> 0 \/ pc <> 0) ->
+  reduce_step N rec x s1 s2 key = Some (KFullSmooth, [hb; hbeta; ph; cb; cbeta; pc; i]).
+Proof.
+  intros key H1 H2 [H3|H3]; rs.
+  - destruct (Req_EM_T pc 0); rq; reflexivity.
+  - reflexivity.
+Qed.
+
+Lemma rs_full : forall key, hbeta <> 0 -> cbeta <> 0 -> ph = 0 -> pc = 0 ->
+  reduce_step N rec x s1 s2 key = Some (KFull, [hb; hbeta; cb; cbeta; i]).
+Proof. intros key H1 H2 H3 H4. rs. reflexivity. Qed.
+
+Lemma rs_heat_smooth_other : forall key, key <> KFullSmooth -> hbeta <> 0 -> cbeta = 0 -> ph <> 0 ->
+  reduce_step N rec x s1 s2 key = Some (KCSmooth, [hb; - hbeta; ph; i]).
+Proof. intros key Hk H1 H2 H3. rs. destruct key; try reflexivity. contradiction Hk; reflexivity. Qed.
+
+Lemma rs_cool_smooth_other : forall key, key <> KFullSmooth -> hbeta = 0 -> cbeta <> 0 -> pc <> 0 ->
+  reduce_step N rec x s1 s2 key = Some (KCSmooth, [cb; cbeta; pc; i]).
+Proof. intros key Hk H1 H2 H3. rs. destruct key; try reflexivity. contradiction Hk; reflexivity. Qed.
+
+Lemma rs_heat_smooth_full : forall hb' hk cb' ck, hbeta <> 0 -> cbeta = 0 -> ph <> 0 ->
+  get_k N hb ph cb pc s1 s2 = (hb', hk, cb', ck) ->
+  reduce_step N rec x s1 s2 KFullSmooth =
+    if Reqb hk 0 && Reqb ck 0 then rec (mkfx N hb' hbeta hk cb' cbeta ck i) else Some (KCSmooth, [hb'; - hbeta; hk; i]).
+Proof. intros hb' hk cb' ck H1 H2 H3 Hg. rs. rewrite Hg. reflexivity. Qed.
+
+Lemma rs_cool_smooth_full : forall hb' hk cb' ck, hbeta = 0 -> cbeta <> 0 -> pc <> 0 ->
+  get_k N hb ph cb pc s1 s2 = (hb', hk, cb', ck) ->
+  reduce_step N rec x s1 s2 KFullSmooth =
+    if Reqb hk 0 && Reqb ck 0 then rec (mkfx N hb' hbeta hk cb' cbeta ck i) else Some (KCSmooth, [cb'; cbeta; ck; i]).
+Proof. intros hb' hk cb' ck H1 H2 H3 Hg. rs. rewrite Hg. reflexivity. Qed.
+
+Lemma rs_heat : forall key, hbeta <> 0 -> cbeta = 0 -> ph = 0 ->
+  reduce_step N rec x s1 s2 key = Some (KC, [(if Rle_dec s2 hb then s2 else hb); - hbeta; i]).
+Proof.
+  intros key H1 H2 H3. rs. unfold n_geb. change (@n_leb N) with Rleb. unfold Rleb.
+  destruct (Rle_dec s2 hb); reflexivity.
+Qed.
+
+Lemma rs_cool : forall key, hbeta = 0 -> cbeta <> 0 -> pc = 0 ->
+  reduce_step N rec x s1 s2 key = Some (KC, [(if Rle_dec cb s1 then s1 else cb); cbeta; i]).
+Proof.
+  intros key H1 H2 H3. rs. change (@n_leb N) with Rleb. unfold Rleb.
+  destruct (Rle_dec cb s1); reflexivity.
+Qed.
+
+Lemma rs_tidd : forall key, hbeta = 0 -> cbeta = 0 -> reduce_step N rec x s1 s2 key = Some (KTidd, [i]).
+Proof.
+  intros key H1 H2. rs.
+  destruct (Req_EM_T ph 0); destruct (Req_EM_T pc 0); rq; cbn; reflexivity.
+Qed.
+End Branches.
+
+(* ---------------- stored documents strictly inside the segment range: the vector handed to the kernel *)
+Section Guarded.
+Variables Tmin Tmax Tminseg Tmaxseg : R.
+Notation tc := (Build_tconstr N Tmin Tmax Tminseg Tmaxseg).
+Hypothesis HB : Tmin <= Tminseg /\ Tminseg <= Tmaxseg /\ Tmaxseg <= Tmax.
+
+Lemma stored_of_eff : forall key raw c y T,
+  named_coeffs N key raw tc = Some c -> effective_x N c tc = Some y ->
+  stored_curve N key raw tc T = Some (full_model1 N y Tmin Tmax T).
+Proof.
+  intros key raw c y T Hn He. unfold stored_curve. rewrite Hn. unfold predict_submodel. rewrite He.
+  unfold loads_of. reflexivity.
+Qed.
+
+Lemma eff_full_smooth : forall hb hbeta ph cb cbeta pc i hb' hk cb' ck : R,
+  hb <= cb -> (hb = cb \/ (Tmin < hb /\ cb < Tmax)) -> (hbeta = 0 -> ph = 0) -> (cbeta = 0 -> pc = 0) ->
+  get_smooth_coeffs N hb ph cb pc = (hb', hk, cb', ck) ->
+  effective_x N (Build_coeffs N HddTiddCddSmooth i (Some hb) (Some hbeta) (Some ph) (Some cb) (Some cbeta) (Some pc)) tc
+  = Some (mkfx N hb' hbeta hk cb' cbeta ck i).
+Proof.
+  intros * Ho Hi Z1 Z2 Hs. unfold effective_x, get_full_model_x. cbn.
+  pose proof (fix_identity hb hbeta ph cb cbeta pc i Tmin Tmax Ho Hi Z1 Z2) as Hf. unfold mkfx in Hf. rewrite Hf.
+  cbn. rewrite Hs. reflexivity.
+Qed.
+
+Lemma eff_full : forall hb hbeta cb cbeta i : R,
+  hb <= cb -> (hb = cb \/ (Tmin < hb /\ cb < Tmax)) ->
+  effective_x N (Build_coeffs N HddTiddCdd i (Some hb) (Some hbeta) None (Some cb) (Some cbeta) None) tc
+  = Some (mkfx N hb hbeta 0 cb cbeta 0 i).
+Proof.
+  intros * Ho Hi. unfold effective_x, get_full_model_x. cbn. change (@n_zero N) with 0.
+  pose proof (fix_identity hb hbeta 0 cb cbeta 0 i Tmin Tmax Ho Hi (fun _ => eq_refl) (fun _ => eq_refl)) as Hf.
+  unfold mkfx in Hf. rewrite Hf. reflexivity.
+Qed.
+
+Lemma eff_heat_smooth : forall bp beta k i : R, beta < 0 ->
+  effective_x N (Build_coeffs N HddTiddSmooth i (Some bp) (Some beta) (Some k) None None None) tc
+  = Some (mkfx N bp (- beta) k bp 0 0 i).
+Proof.
+  intros * Hb. unfold effective_x, get_full_model_x. cbn. change (@n_zero N) with 0. unfold Rltb.
+  destruct (Rlt_dec beta 0); [|lra].
+  assert (Z : - beta = 0 -> k = 0) by (intros; lra).
+  pose proof (fix_identity bp (- beta) k bp 0 0 i Tmin Tmax (Rle_refl _) (or_introl eq_refl) Z (fun _ => eq_refl)) as Hf.
+  unfold mkfx in Hf. rewrite Hf. reflexivity.
+Qed.
+
+Lemma eff_cool_smooth : forall bp beta k i : R, 0 < beta ->
+  effective_x N (Build_coeffs N TiddCddSmooth i None None None (Some bp) (Some beta) (Some k)) tc
+  = Some (mkfx N bp 0 0 bp beta k i).
+Proof.
+  intros * Hb. unfold effective_x, get_full_model_x. cbn. change (@n_zero N) with 0. unfold Rltb.
+  destruct (Rlt_dec beta 0); [lra|].
+  assert (Z : beta = 0 -> k = 0) by (intros; lra).
+  pose proof (fix_identity bp 0 0 bp beta k i Tmin Tmax (Rle_refl _) (or_introl eq_refl) (fun _ => eq_refl) Z) as Hf.
+  unfold mkfx in Hf. rewrite Hf. reflexivity.
+Qed.
+
+Lemma eff_heat : forall bp beta i : R, beta < 0 -> Tminseg <= bp <= Tmaxseg ->
+  effective_x N (Build_coeffs N HddTidd i (Some bp) (Some beta) None None None None) tc
+  = Some (mkfx N bp (- beta) 0 bp 0 0 i).
+Proof.
+  intros * Hb Hr. unfold effective_x, get_full_model_x. cbn. change (@n_zero N) with 0. unfold n_gtb. cbn. unfold Rltb.
+  destruct (Rlt_dec bp Tminseg); [lra|]. destruct (Rlt_dec Tmaxseg bp); [lra|]. destruct (Rlt_dec beta 0); [|lra].
+  pose proof (fix_identity bp (- beta) 0 bp 0 0 i Tmin Tmax (Rle_refl _) (or_introl eq_refl) (fun _ => eq_refl) (fun _ => eq_refl)) as Hf.
+  unfold mkfx in Hf. rewrite Hf. reflexivity.
+Qed.
+
+Lemma eff_cool : forall bp beta i : R, 0 < beta -> Tminseg <= bp <= Tmaxseg ->
+  effective_x N (Build_coeffs N TiddCdd i None None None (Some bp) (Some beta) None) tc
+  = Some (mkfx N bp 0 0 bp beta 0 i).
+Proof.
+  intros * Hb Hr. unfold effective_x, get_full_model_x. cbn. change (@n_zero N) with 0. unfold n_gtb. cbn. unfold Rltb.
+  destruct (Rlt_dec bp Tminseg); [lra|]. destruct (Rlt_dec Tmaxseg bp); [lra|]. destruct (Rlt_dec beta 0); [lra|].
+  pose proof (fix_identity bp 0 0 bp beta 0 i Tmin Tmax (Rle_refl _) (or_introl eq_refl) (fun _ => eq_refl) (fun _ => eq_refl)) as Hf.
+  unfold mkfx in Hf. rewrite Hf. reflexivity.
+Qed.
+
+Lemma eff_tidd : forall i : R,
+  effective_x N (Build_coeffs N Tidd i None None None None None None) tc = Some (mkfx N 0 0 0 0 0 0 i).
+Proof.
+  intros. unfold effective_x, get_full_model_x. cbn. change (@n_zero N) with 0.
+  pose proof (fix_identity 0 0 0 0 0 0 i Tmin Tmax (Rle_refl _) (or_introl eq_refl) (fun _ => eq_refl) (fun _ => eq_refl)) as Hf.
+  unfold mkfx in Hf. rewrite Hf. reflexivity.
+Qed.
+
+Lemma full_model1_flat : forall hb hk cb ck i T : R,
+  full_model1 N (mkfx N hb 0 hk cb 0 ck i) Tmin Tmax T = 1 * i.
+Proof.
+  intros. unfold full_model1, mkfx. cbn. unfold Reqb. destruct (Req_EM_T 0 0); [reflexivity | lra].
+Qed.
+
+Ltac fin := f_equal; apply same_sides_curve; try assumption;
+  try (unfold good, mkfx; cbn; repeat split; lra); try (cbn; lra);
+  unfold same_sides, mkfx; cbn; repeat split; intros; try lra; try contradiction.
+
+Lemma get_k_interior : forall hb ph cb pc : R, hb < Tmaxseg -> Tminseg < cb ->
+  get_k N hb ph cb pc Tminseg Tmaxseg = get_smooth_coeffs N hb ph cb pc.
+Proof.
+  intros hb ph cb pc H1 H2. unfold get_k.
+  destruct (get_smooth_coeffs N hb ph cb pc) as [[[a b] c] d].
+  unfold n_geb. change (@n_leb N) with Rleb. unfold Rleb.
+  destruct (Rle_dec Tmaxseg hb); [lra|]. destruct (Rle_dec cb Tminseg); [lra|]. reflexivity.
+Qed.
+
+(* C12, read-back: smoothed two-sided layout, optimiser's balance points ordered and strictly inside the segment range *)
+Theorem readback_full_smooth : forall hb hbeta ph cb cbeta pc i T : R,
+  Tminseg < hb -> hb <= cb -> cb < Tmaxseg -> 0 <= hbeta -> 0 <= cbeta -> 0 <= ph -> 0 <= pc ->
+  (hbeta = 0 -> ph = 0) -> (cbeta = 0 -> pc = 0) ->
+  stored_curve N KFullSmooth [hb; hbeta; ph; cb; cbeta; pc; i] tc T =
+  scored_curve N KFullSmooth [hb; hbeta; ph; cb; cbeta; pc; i] tc T.
+Proof.
+  intros hb hbeta ph cb cbeta pc i T G1 G2 G3 B1 B2 P1 P2 Z1 Z2.
+  destruct HB as (HB1 & HB2 & HB3).
+  assert (Hint : hb = cb \/ (Tmin < hb /\ cb < Tmax)) by (right; lra).
+  destruct (smooth_coeffs_spec lo hi hb ph cb pc G2 P1 P2) as (hk & ck & Hs & S1 & S2 & S3 & Y1 & Y2 & _).
+  (* what was scored *)
+  unfold scored_curve, scored_x. rewrite Hs. cbn [T_min T_max].
+  (* the refined vector *)
+  assert (Hx : get_full_model_x N KFullSmooth [hb; hbeta; ph; cb; cbeta; pc; i] Tmin Tmax Tminseg Tmaxseg =
+               Some (mkfx N hb hbeta ph cb cbeta pc i)).
+  { unfold get_full_model_x. f_equal. apply (fix_identity hb hbeta ph cb cbeta pc i Tmin Tmax G2 Hint Z1 Z2). }
+  assert (Hgood : good lo hi (mkfx N (hb + hk) hbeta hk (cb - ck) cbeta ck i)).
+  { unfold good, mkfx; cbn. repeat split; lra. }
+  destruct (Req_EM_T hbeta 0) as [Eh|Eh]; destruct (Req_EM_T cbeta 0) as [Ec|Ec].
+  - (* tidd *)
+    assert (Hn : named_coeffs N KFullSmooth [hb; hbeta; ph; cb; cbeta; pc; i] tc =
+                 Some (Build_coeffs N Tidd i None None None None None None)).
+    { unfold named_coeffs, refine. cbn [T_min T_max T_min_seg T_max_seg]. rewrite Hx. unfold reduce_model.
+      rewrite rs_tidd by assumption. reflexivity. }
+    rewrite (stored_of_eff _ _ _ _ T Hn (eff_tidd i)). subst hbeta cbeta. f_equal. rewrite !full_model1_flat. reflexivity.
+  - (* cooling only *)
+    assert (ph = 0) by auto. subst hbeta ph. assert (hk = 0) by auto. subst hk.
+    assert (Pc : 0 < cbeta) by (apply pos_of_ne; assumption).
+    destruct (Req_EM_T pc 0) as [Ek|Ek].
+    + subst pc. assert (ck = 0) by auto. subst ck.
+      assert (Hn : named_coeffs N KFullSmooth [hb; 0; 0; cb; cbeta; 0; i] tc =
+                   Some (Build_coeffs N TiddCdd i None None None (Some cb) (Some cbeta) None)).
+      { unfold named_coeffs, refine. cbn [T_min T_max T_min_seg T_max_seg]. rewrite Hx. unfold reduce_model.
+        rewrite rs_cool by auto. destruct (Rle_dec cb Tminseg); [lra|].
+        cbn. unfold Rltb. destruct (Rlt_dec cbeta 0); [lra | reflexivity]. }
+      rewrite (stored_of_eff _ _ _ _ T Hn (eff_cool cb cbeta i Pc ltac:(lra))).
+      fin.
+    + assert (Hgk : get_k N hb 0 cb pc Tminseg Tmaxseg = (hb + 0, 0, cb - ck, ck))
+        by (rewrite get_k_interior by lra; exact Hs).
+      assert (Pk : 0 < pc) by (apply pos_of_ne; assumption).
+      destruct (Req_EM_T ck 0) as [Ek2|Ek2].
+      * subst ck.
+        assert (Hn : named_coeffs N KFullSmooth [hb; 0; 0; cb; cbeta; pc; i] tc =
+                     Some (Build_coeffs N TiddCdd i None None None (Some (cb - 0)) (Some cbeta) None)).
+        { unfold named_coeffs, refine. cbn [T_min T_max T_min_seg T_max_seg]. rewrite Hx. unfold reduce_model.
+          rewrite (rs_cool_smooth_full _ _ _ _ _ _ _ _ _ _ _ _ _ _ eq_refl Ec Ek Hgk). rq. cbn [andb].
+          rewrite rs_cool by auto. destruct (Rle_dec (cb - 0) Tminseg); [lra|].
+          cbn. unfold Rltb. destruct (Rlt_dec cbeta 0); [lra | reflexivity]. }
+        rewrite (stored_of_eff _ _ _ _ T Hn (eff_cool (cb - 0) cbeta i Pc ltac:(lra))).
+        fin.
+      * assert (Hn : named_coeffs N KFullSmooth [hb; 0; 0; cb; cbeta; pc; i] tc =
+                     Some (Build_coeffs N TiddCddSmooth i None None None (Some (cb - ck)) (Some cbeta) (Some ck))).
+        { unfold named_coeffs, refine. cbn [T_min T_max T_min_seg T_max_seg]. rewrite Hx. unfold reduce_model.
+          rewrite (rs_cool_smooth_full _ _ _ _ _ _ _ _ _ _ _ _ _ _ eq_refl Ec Ek Hgk). rq. cbn [andb].
+          cbn. unfold Rltb. destruct (Rlt_dec cbeta 0); [lra | reflexivity]. }
+        rewrite (stored_of_eff _ _ _ _ T Hn (eff_cool_smooth (cb - ck) cbeta ck i Pc)).
+        fin.
+  - (* heating only *)
+    assert (pc = 0) by auto. subst cbeta pc. assert (ck = 0) by auto. subst ck.
+    assert (Ph : 0 < hbeta) by (apply pos_of_ne; assumption).
+    assert (Nh : - hbeta < 0) by lra.
+    destruct (Req_EM_T ph 0) as [Ek|Ek].
+    + subst ph. assert (hk = 0) by auto. subst hk.
+      assert (Hn : named_coeffs N KFullSmooth [hb; hbeta; 0; cb; 0; 0; i] tc =
+                   Some (Build_coeffs N HddTidd i (Some hb) (Some (- hbeta)) None None None None)).
+      { unfold named_coeffs, refine. cbn [T_min T_max T_min_seg T_max_seg]. rewrite Hx. unfold reduce_model.
+        rewrite rs_heat by auto. destruct (Rle_dec Tmaxseg hb); [lra|].
+        cbn. unfold Rltb. destruct (Rlt_dec (- hbeta) 0); [reflexivity | lra]. }
+      rewrite (stored_of_eff _ _ _ _ T Hn (eff_heat hb (- hbeta) i Nh ltac:(lra))). rewrite Ropp_involutive.
+      fin.
+    + assert (Hgk : get_k N hb ph cb 0 Tminseg Tmaxseg = (hb + hk, hk, cb - 0, 0))
+        by (rewrite get_k_interior by lra; exact Hs).
+      destruct (Req_EM_T hk 0) as [Ek2|Ek2].
+      * subst hk.
+        assert (Hn : named_coeffs N KFullSmooth [hb; hbeta; ph; cb; 0; 0; i] tc =
+                     Some (Build_coeffs N HddTidd i (Some (hb + 0)) (Some (- hbeta)) None None None None)).
+        { unfold named_coeffs, refine. cbn [T_min T_max T_min_seg T_max_seg]. rewrite Hx. unfold reduce_model.
+          rewrite (rs_heat_smooth_full _ _ _ _ _ _ _ _ _ _ _ _ _ _ Eh eq_refl Ek Hgk). rq. cbn [andb].
+          rewrite rs_heat by auto. destruct (Rle_dec Tmaxseg (hb + 0)); [lra|].
+          cbn. unfold Rltb. destruct (Rlt_dec (- hbeta) 0); [reflexivity | lra]. }
+        rewrite (stored_of_eff _ _ _ _ T Hn (eff_heat (hb + 0) (- hbeta) i Nh ltac:(lra))). rewrite Ropp_involutive.
+        fin.
+      * assert (Hn : named_coeffs N KFullSmooth [hb; hbeta; ph; cb; 0; 0; i] tc =
+                     Some (Build_coeffs N HddTiddSmooth i (Some (hb + hk)) (Some (- hbeta)) (Some hk) None None None)).
+        { unfold named_coeffs, refine. cbn [T_min T_max T_min_seg T_max_seg]. rewrite Hx. unfold reduce_model.
+          rewrite (rs_heat_smooth_full _ _ _ _ _ _ _ _ _ _ _ _ _ _ Eh eq_refl Ek Hgk). rq. cbn [andb].
+          cbn. unfold Rltb. destruct (Rlt_dec (- hbeta) 0); [reflexivity | lra]. }
+        rewrite (stored_of_eff _ _ _ _ T Hn (eff_heat_smooth (hb + hk) (- hbeta) hk i Nh)). rewrite Ropp_involutive.
+        fin.
+  - (* both slopes *)
+    destruct (Req_EM_T ph 0) as [Ek|Ek]; [destruct (Req_EM_T pc 0) as [Ek'|Ek']|].
+    + subst ph pc. assert (hk = 0) by auto. assert (ck = 0) by auto. subst hk ck.
+      assert (Hn : named_coeffs N KFullSmooth [hb; hbeta; 0; cb; cbeta; 0; i] tc =
+                   Some (Build_coeffs N HddTiddCdd i (Some hb) (Some hbeta) None (Some cb) (Some cbeta) None)).
+      { unfold named_coeffs, refine. cbn [T_min T_max T_min_seg T_max_seg]. rewrite Hx. unfold reduce_model.
+        rewrite rs_full by auto. cbn. unfold Rltb. destruct (Rlt_dec cb hb); [lra | reflexivity]. }
+      rewrite (stored_of_eff _ _ _ _ T Hn (eff_full hb hbeta cb cbeta i G2 Hint)).
+      fin.
+    + assert (Hn : named_coeffs N KFullSmooth [hb; hbeta; ph; cb; cbeta; pc; i] tc =
+                   Some (Build_coeffs N HddTiddCddSmooth i (Some hb) (Some hbeta) (Some ph) (Some cb) (Some cbeta) (Some pc))).
+      { unfold named_coeffs, refine. cbn [T_min T_max T_min_seg T_max_seg]. rewrite Hx. unfold reduce_model.
+        rewrite rs_full_smooth by auto. cbn. unfold Rltb. destruct (Rlt_dec cb hb); [lra | reflexivity]. }
+      rewrite (stored_of_eff _ _ _ _ T Hn (eff_full_smooth hb hbeta ph cb cbeta pc i _ _ _ _ G2 Hint Z1 Z2 Hs)).
+      reflexivity.
+    + assert (Hn : named_coeffs N KFullSmooth [hb; hbeta; ph; cb; cbeta; pc; i] tc =
+                   Some (Build_coeffs N HddTiddCddSmooth i (Some hb) (Some hbeta) (Some ph) (Some cb) (Some cbeta) (Some pc))).
+      { unfold named_coeffs, refine. cbn [T_min T_max T_min_seg T_max_seg]. rewrite Hx. unfold reduce_model.
+        rewrite rs_full_smooth by auto. cbn. unfold Rltb. destruct (Rlt_dec cb hb); [lra | reflexivity]. }
+      rewrite (stored_of_eff _ _ _ _ T Hn (eff_full_smooth hb hbeta ph cb cbeta pc i _ _ _ _ G2 Hint Z1 Z2 Hs)).
+      reflexivity.
+Qed.
+
+
+(* unsmoothed two-sided layout *)
+Theorem readback_full : forall hb hbeta cb cbeta i T : R,
+  Tminseg < hb -> hb <= cb -> cb < Tmaxseg -> 0 <= hbeta -> 0 <= cbeta ->
+  stored_curve N KFull [hb; hbeta; cb; cbeta; i] tc T = scored_curve N KFull [hb; hbeta; cb; cbeta; i] tc T.
+Proof.
+  intros hb hbeta cb cbeta i T G1 G2 G3 B1 B2.
+  destruct HB as (HB1 & HB2 & HB3).
+  assert (Hint : hb = cb \/ (Tmin < hb /\ cb < Tmax)) by (right; lra).
+  unfold scored_curve, scored_x. change (@n_zero N) with 0. cbn [T_min T_max].
+  assert (Hx : get_full_model_x N KFull [hb; hbeta; cb; cbeta; i] Tmin Tmax Tminseg Tmaxseg =
+               Some (mkfx N hb hbeta 0 cb cbeta 0 i)).
+  { unfold get_full_model_x. change (@n_zero N) with 0. f_equal.
+    apply (fix_identity hb hbeta 0 cb cbeta 0 i Tmin Tmax G2 Hint (fun _ => eq_refl) (fun _ => eq_refl)). }
+  assert (Hgood : good lo hi (mkfx N hb hbeta 0 cb cbeta 0 i)) by (unfold good, mkfx; cbn; repeat split; lra).
+  destruct (Req_EM_T hbeta 0) as [Eh|Eh]; destruct (Req_EM_T cbeta 0) as [Ec|Ec].
+  - assert (Hn : named_coeffs N KFull [hb; hbeta; cb; cbeta; i] tc = Some (Build_coeffs N Tidd i None None None None None None)).
+    { unfold named_coeffs, refine. cbn [T_min T_max T_min_seg T_max_seg]. rewrite Hx. unfold reduce_model.
+      rewrite rs_tidd by assumption. reflexivity. }
+    rewrite (stored_of_eff _ _ _ _ T Hn (eff_tidd i)). subst hbeta cbeta. f_equal. rewrite !full_model1_flat. reflexivity.
+  - subst hbeta. assert (Pc : 0 < cbeta) by (apply pos_of_ne; assumption).
+    assert (Hn : named_coeffs N KFull [hb; 0; cb; cbeta; i] tc =
+                 Some (Build_coeffs N TiddCdd i None None None (Some cb) (Some cbeta) None)).
+    { unfold named_coeffs, refine. cbn [T_min T_max T_min_seg T_max_seg]. rewrite Hx. unfold reduce_model.
+      rewrite rs_cool by auto. destruct (Rle_dec cb Tminseg); [lra|].
+      cbn. unfold Rltb. destruct (Rlt_dec cbeta 0); [lra | reflexivity]. }
+    rewrite (stored_of_eff _ _ _ _ T Hn (eff_cool cb cbeta i Pc ltac:(lra))). fin.
+  - subst cbeta. assert (Ph : 0 < hbeta) by (apply pos_of_ne; assumption). assert (Nh : - hbeta < 0) by lra.
+    assert (Hn : named_coeffs N KFull [hb; hbeta; cb; 0; i] tc =
+                 Some (Build_coeffs N HddTidd i (Some hb) (Some (- hbeta)) None None None None)).
+    { unfold named_coeffs, refine. cbn [T_min T_max T_min_seg T_max_seg]. rewrite Hx. unfold reduce_model.
+      rewrite rs_heat by auto. destruct (Rle_dec Tmaxseg hb); [lra|].
+      cbn. unfold Rltb. destruct (Rlt_dec (- hbeta) 0); [reflexivity | lra]. }
+    rewrite (stored_of_eff _ _ _ _ T Hn (eff_heat hb (- hbeta) i Nh ltac:(lra))). rewrite Ropp_involutive. fin.
+  - assert (Hn : named_coeffs N KFull [hb; hbeta; cb; cbeta; i] tc =
+                 Some (Build_coeffs N HddTiddCdd i (Some hb) (Some hbeta) None (Some cb) (Some cbeta) None)).
+    { unfold named_coeffs, refine. cbn [T_min T_max T_min_seg T_max_seg]. rewrite Hx. unfold reduce_model.
+      rewrite rs_full by auto. cbn. unfold Rltb. destruct (Rlt_dec cb hb); [lra | reflexivity]. }
+    rewrite (stored_of_eff _ _ _ _ T Hn (eff_full hb hbeta cb cbeta i G2 Hint)). reflexivity.
+Qed.
+
+(* one-sided layouts: the sign of the slope decides heating / cooling *)
+Theorem readback_c_smooth : forall bp beta k i T : R,
+  Tminseg < bp -> bp < Tmaxseg -> 0 <= k -> (beta = 0 -> k = 0) ->
+  stored_curve N KCSmooth [bp; beta; k; i] tc T = scored_curve N KCSmooth [bp; beta; k; i] tc T.
+Proof.
+  intros bp beta k i T G1 G2 K Z.
+  destruct HB as (HB1 & HB2 & HB3).
+  unfold scored_curve, scored_x. change (@n_zero N) with 0. change (@n_ltb N beta 0) with (Rltb beta 0).
+  change (@n_opp N beta) with (- beta). cbn [T_min T_max].
+  unfold Rltb. destruct (Rlt_dec beta 0) as [Hn0|Hn0].
+  - assert (Hx : get_full_model_x N KCSmooth [bp; beta; k; i] Tmin Tmax Tminseg Tmaxseg =
+                 Some (mkfx N bp (- beta) k bp 0 0 i)).
+    { unfold get_full_model_x. change (@n_zero N) with 0. change (@n_ltb N beta 0) with (Rltb beta 0).
+      change (@n_opp N beta) with (- beta). unfold Rltb. destruct (Rlt_dec beta 0); [|lra]. f_equal.
+      apply (fix_identity bp (- beta) k bp 0 0 i Tmin Tmax (Rle_refl _) (or_introl eq_refl)); intros; lra. }
+    assert (Eh : - beta <> 0) by lra. assert (Nh : - - beta < 0) by lra.
+    destruct (Req_EM_T k 0) as [Ek|Ek].
+    + subst k.
+      assert (Hn : named_coeffs N KCSmooth [bp; beta; 0; i] tc =
+                   Some (Build_coeffs N HddTidd i (Some bp) (Some (- - beta)) None None None None)).
+      { unfold named_coeffs, refine. cbn [T_min T_max T_min_seg T_max_seg]. rewrite Hx. unfold reduce_model.
+        rewrite rs_heat by auto. destruct (Rle_dec Tmaxseg bp); [lra|].
+        cbn. unfold Rltb. destruct (Rlt_dec (- - beta) 0); [reflexivity | lra]. }
+      rewrite (stored_of_eff _ _ _ _ T Hn (eff_heat bp (- - beta) i Nh ltac:(lra))). rewrite Ropp_involutive. reflexivity.
+    + assert (Hn : named_coeffs N KCSmooth [bp; beta; k; i] tc =
+                   Some (Build_coeffs N HddTiddSmooth i (Some bp) (Some (- - beta)) (Some k) None None None)).
+      { unfold named_coeffs, refine. cbn [T_min T_max T_min_seg T_max_seg]. rewrite Hx. unfold reduce_model.
+        rewrite rs_heat_smooth_other by (auto; discriminate).
+        cbn. unfold Rltb. destruct (Rlt_dec (- - beta) 0); [reflexivity | lra]. }
+      rewrite (stored_of_eff _ _ _ _ T Hn (eff_heat_smooth bp (- - beta) k i Nh)). rewrite Ropp_involutive. reflexivity.
+  - assert (Hb0 : 0 <= beta) by lra.
+    assert (Hx : get_full_model_x N KCSmooth [bp; beta; k; i] Tmin Tmax Tminseg Tmaxseg =
+                 Some (mkfx N bp 0 0 bp beta k i)).
+    { unfold get_full_model_x. change (@n_zero N) with 0. change (@n_ltb N beta 0) with (Rltb beta 0).
+      unfold Rltb. destruct (Rlt_dec beta 0); [lra|]. f_equal.
+      apply (fix_identity bp 0 0 bp beta k i Tmin Tmax (Rle_refl _) (or_introl eq_refl)); auto. }
+    destruct (Req_EM_T beta 0) as [Eb|Eb].
+    + assert (k = 0) by auto. subst beta k.
+      assert (Hn : named_coeffs N KCSmooth [bp; 0; 0; i] tc = Some (Build_coeffs N Tidd i None None None None None None)).
+      { unfold named_coeffs, refine. cbn [T_min T_max T_min_seg T_max_seg]. rewrite Hx. unfold reduce_model.
+        rewrite rs_tidd by reflexivity. reflexivity. }
+      rewrite (stored_of_eff _ _ _ _ T Hn (eff_tidd i)). f_equal. rewrite !full_model1_flat. reflexivity.
+    + assert (Pc : 0 < beta) by lra.
+      destruct (Req_EM_T k 0) as [Ek|Ek].
+      * subst k.
+        assert (Hn : named_coeffs N KCSmooth [bp; beta; 0; i] tc =
+                     Some (Build_coeffs N TiddCdd i None None None (Some bp) (Some beta) None)).
+        { unfold named_coeffs, refine. cbn [T_min T_max T_min_seg T_max_seg]. rewrite Hx. unfold reduce_model.
+          rewrite rs_cool by auto. destruct (Rle_dec bp Tminseg); [lra|].
+          cbn. unfold Rltb. destruct (Rlt_dec beta 0); [lra | reflexivity]. }
+        rewrite (stored_of_eff _ _ _ _ T Hn (eff_cool bp beta i Pc ltac:(lra))). reflexivity.
+      * assert (Hn : named_coeffs N KCSmooth [bp; beta; k; i] tc =
+                     Some (Build_coeffs N TiddCddSmooth i None None None (Some bp) (Some beta) (Some k))).
+        { unfold named_coeffs, refine. cbn [T_min T_max T_min_seg T_max_seg]. rewrite Hx. unfold reduce_model.
+          rewrite rs_cool_smooth_other by (auto; discriminate).
+          cbn. unfold Rltb. destruct (Rlt_dec beta 0); [lra | reflexivity]. }
+        rewrite (stored_of_eff _ _ _ _ T Hn (eff_cool_smooth bp beta k i Pc)). reflexivity.
+Qed.
+
+Theorem readback_c : forall bp beta i T : R, Tminseg < bp -> bp < Tmaxseg ->
+  stored_curve N KC [bp; beta; i] tc T = scored_curve N KC [bp; beta; i] tc T.
+Proof.
+  intros bp beta i T G1 G2.
+  destruct HB as (HB1 & HB2 & HB3).
+  unfold scored_curve, scored_x. change (@n_zero N) with 0. change (@n_ltb N beta 0) with (Rltb beta 0).
+  change (@n_opp N beta) with (- beta). cbn [T_min T_max].
+  assert (Hclamp : forall b, get_full_model_x N KC [bp; beta; i] Tmin Tmax Tminseg Tmaxseg =
+           Some (fix_full_model_x N (if Rlt_dec beta 0 then mkfx N bp (- beta) 0 bp 0 0 i else mkfx N bp 0 0 bp beta 0 i) Tmin Tmax)
+           \/ b = true).
+  { intros b. left. unfold get_full_model_x. change (@n_zero N) with 0. unfold n_gtb. change (@n_ltb N) with Rltb.
+    change (@n_opp N beta) with (- beta). unfold Rltb.
+    destruct (Rlt_dec bp Tminseg); [lra|]. destruct (Rlt_dec Tmaxseg bp); [lra|].
+    destruct (Rlt_dec beta 0); reflexivity. }
+  destruct (Hclamp false) as [Hx0|Hx0]; [|discriminate]. clear Hclamp.
+  unfold Rltb. destruct (Rlt_dec beta 0) as [Hn0|Hn0].
+  - rewrite (fix_identity bp (- beta) 0 bp 0 0 i Tmin Tmax (Rle_refl _) (or_introl eq_refl) (fun _ => eq_refl) (fun _ => eq_refl)) in Hx0.
+    assert (Eh : - beta <> 0) by lra. assert (Nh : - - beta < 0) by lra.
+    assert (Hn : named_coeffs N KC [bp; beta; i] tc =
+                 Some (Build_coeffs N HddTidd i (Some bp) (Some (- - beta)) None None None None)).
+    { unfold named_coeffs, refine. cbn [T_min T_max T_min_seg T_max_seg]. rewrite Hx0. unfold reduce_model.
+      rewrite rs_heat by auto. destruct (Rle_dec Tmaxseg bp); [lra|].
+      cbn. unfold Rltb. destruct (Rlt_dec (- - beta) 0); [reflexivity | lra]. }
+    rewrite (stored_of_eff _ _ _ _ T Hn (eff_heat bp (- - beta) i Nh ltac:(lra))). rewrite Ropp_involutive. reflexivity.
+  - rewrite (fix_identity bp 0 0 bp beta 0 i Tmin Tmax (Rle_refl _) (or_introl eq_refl) (fun _ => eq_refl) (fun _ => eq_refl)) in Hx0.
+    destruct (Req_EM_T beta 0) as [Eb|Eb].
+    + subst beta.
+      assert (Hn : named_coeffs N KC [bp; 0; i] tc = Some (Build_coeffs N Tidd i None None None None None None)).
+      { unfold named_coeffs, refine. cbn [T_min T_max T_min_seg T_max_seg]. rewrite Hx0. unfold reduce_model.
+        rewrite rs_tidd by reflexivity. reflexivity. }
+      rewrite (stored_of_eff _ _ _ _ T Hn (eff_tidd i)). f_equal. rewrite !full_model1_flat. reflexivity.
+    + assert (Pc : 0 < beta) by lra.
+      assert (Hn : named_coeffs N KC [bp; beta; i] tc =
+                   Some (Build_coeffs N TiddCdd i None None None (Some bp) (Some beta) None)).
+      { unfold named_coeffs, refine. cbn [T_min T_max T_min_seg T_max_seg]. rewrite Hx0. unfold reduce_model.
+        rewrite rs_cool by auto. destruct (Rle_dec bp Tminseg); [lra|].
+        cbn. unfold Rltb. destruct (Rlt_dec beta 0); [lra | reflexivity]. }
+      rewrite (stored_of_eff _ _ _ _ T Hn (eff_cool bp beta i Pc ltac:(lra))). reflexivity.
+Qed.
+
+Theorem readback_tidd : forall i T : R,
+  stored_curve N KTidd [i] tc T = scored_curve N KTidd [i] tc T.
+Proof.
+  intros i T. unfold scored_curve, scored_x. change (@n_zero N) with 0. cbn [T_min T_max].
+  assert (Hn : named_coeffs N KTidd [i] tc = Some (Build_coeffs N Tidd i None None None None None None)).
+  { unfold named_coeffs, refine, get_full_model_x. cbn [T_min T_max T_min_seg T_max_seg]. change (@n_zero N) with 0.
+    pose proof (fix_identity 0 0 0 0 0 0 i Tmin Tmax (Rle_refl _) (or_introl eq_refl) (fun _ => eq_refl) (fun _ => eq_refl)) as Hf.
+    unfold mkfx in Hf. rewrite Hf. unfold reduce_model.
+    rewrite (rs_tidd _ 0 0 0 0 0 0 i) by reflexivity. reflexivity. }
+  rewrite (stored_of_eff _ _ _ _ T Hn (eff_tidd i)). reflexivity.
+Qed.
+End Guarded.
+
+End Readback.
+
+(* ---------------- refinement is idempotent on what it stores *)
+Section Idem.
+Variables lo hi : R.
+Notation N := (RNumOf lo hi).
+Variables Tmin Tmax Tminseg Tmaxseg : R.
+Notation tc := (Build_tconstr N Tmin Tmax Tminseg Tmaxseg).
+Local Arguments fix_full_model_x : simpl never.
+Local Arguments get_smooth_coeffs : simpl never.
+Local Arguments get_k : simpl never.
+
+(* a stored document on which OptimizedResult's refinement has nothing left to do *)
+Definition stable (c : coeffs N) : Prop :=
+  match model_type c, hdd_bp c, hdd_beta c, hdd_k c, cdd_bp c, cdd_beta c, cdd_k c with
+  | HddTiddCddSmooth, Some hb, Some hbeta, Some hk, Some cb, Some cbeta, Some ck =>
+      hb <= cb /\ (hb = cb \/ (Tmin < hb /\ cb < Tmax)) /\ 0 < hbeta /\ 0 < cbeta /\ (hk <> 0 \/ ck <> 0)
+  | HddTiddCdd, Some hb, Some hbeta, None, Some cb, Some cbeta, None =>
+      hb <= cb /\ (hb = cb \/ (Tmin < hb /\ cb < Tmax)) /\ 0 < hbeta /\ 0 < cbeta
+  | HddTiddSmooth, Some hb, Some hbeta, Some hk, None, None, None => hbeta < 0 /\ hk <> 0
+  | TiddCddSmooth, None, None, None, Some cb, Some cbeta, Some ck => 0 < cbeta /\ ck <> 0
+  | HddTidd, Some hb, Some hbeta, None, None, None, None => hbeta < 0 /\ Tminseg <= hb < Tmaxseg
+  | TiddCdd, None, None, None, Some cb, Some cbeta, None => 0 < cbeta /\ Tminseg < cb <= Tmaxseg
+  | Tidd, None, None, None, None, None, None => True
+  | _, _, _, _, _, _, _ => False
+  end.
+
+Theorem refine_idempotent : forall c, stable c ->
+  exists arr, to_np_array N c = Some arr /\ named_coeffs N (key_of_shape (model_type c)) arr tc = Some c.
+Proof.
+  intros [s i hb hbeta hk cb cbeta ck] S. unfold stable in S. cbn in S.
+  destruct s; destruct hb as [hb|], hbeta as [hbeta|], hk as [hk|], cb as [cb|], cbeta as [cbeta|], ck as [ck|];
+    try contradiction; cbn [model_type key_of_shape]; eexists; (split; [reflexivity|]);
+    unfold named_coeffs, refine, get_full_model_x; cbn [T_min T_max T_min_seg T_max_seg];
+    cbn [intercept]; change (@n_zero N) with 0.
+  - destruct S as (S1 & S2 & S3 & S4 & S5).
+    pose proof (fix_identity lo hi hb hbeta hk cb cbeta ck i Tmin Tmax S1 S2) as Hf. unfold mkfx in Hf.
+    rewrite Hf by (intros; lra). unfold reduce_model.
+    rewrite (rs_full_smooth lo hi) by (try lra; exact S5).
+    cbn. unfold Rltb. destruct (Rlt_dec cb hb); [lra | reflexivity].
+  - destruct S as (S1 & S2 & S3 & S4).
+    pose proof (fix_identity lo hi hb hbeta 0 cb cbeta 0 i Tmin Tmax S1 S2 (fun _ => eq_refl) (fun _ => eq_refl)) as Hf.
+    unfold mkfx in Hf. rewrite Hf. unfold reduce_model.
+    rewrite (rs_full lo hi) by (try lra; reflexivity).
+    cbn. unfold Rltb. destruct (Rlt_dec cb hb); [lra | reflexivity].
+  - destruct S as (S1 & S2). change (@n_ltb N hbeta 0) with (Rltb hbeta 0). unfold Rltb.
+    destruct (Rlt_dec hbeta 0); [|lra]. change (@n_opp N hbeta) with (- hbeta).
+    pose proof (fix_identity lo hi hb (- hbeta) hk hb 0 0 i Tmin Tmax (Rle_refl _) (or_introl eq_refl)) as Hf.
+    unfold mkfx in Hf. rewrite Hf by (intros; lra). unfold reduce_model.
+    rewrite (rs_heat_smooth_other lo hi) by (try lra; try discriminate; try reflexivity; exact S2).
+    cbn. unfold Rltb. destruct (Rlt_dec (- - hbeta) 0); [|lra]. rewrite Ropp_involutive. reflexivity.
+  - destruct S as (S1 & S2). change (@n_ltb N cbeta 0) with (Rltb cbeta 0). unfold Rltb.
+    destruct (Rlt_dec cbeta 0); [lra|].
+    pose proof (fix_identity lo hi cb 0 0 cb cbeta ck i Tmin Tmax (Rle_refl _) (or_introl eq_refl)) as Hf.
+    unfold mkfx in Hf. rewrite Hf by (intros; lra). unfold reduce_model.
+    rewrite (rs_cool_smooth_other lo hi) by (try lra; try discriminate; try reflexivity; exact S2).
+    cbn. unfold Rltb. destruct (Rlt_dec cbeta 0); [lra | reflexivity].
+  - destruct S as (S1 & S2). unfold n_gtb. change (@n_ltb N) with Rltb. unfold Rltb.
+    destruct (Rlt_dec hb Tminseg); [lra|]. destruct (Rlt_dec Tmaxseg hb); [lra|].
+    destruct (Rlt_dec hbeta 0); [|lra]. change (@n_opp N hbeta) with (- hbeta).
+    pose proof (fix_identity lo hi hb (- hbeta) 0 hb 0 0 i Tmin Tmax (Rle_refl _) (or_introl eq_refl) (fun _ => eq_refl) (fun _ => eq_refl)) as Hf.
+    unfold mkfx in Hf. rewrite Hf. unfold reduce_model.
+    rewrite (rs_heat lo hi) by (try lra; reflexivity). destruct (Rle_dec Tmaxseg hb); [lra|].
+    cbn. unfold Rltb. destruct (Rlt_dec (- - hbeta) 0); [|lra]. rewrite Ropp_involutive. reflexivity.
+  - destruct S as (S1 & S2). unfold n_gtb. change (@n_ltb N) with Rltb. unfold Rltb.
+    destruct (Rlt_dec cb Tminseg); [lra|]. destruct (Rlt_dec Tmaxseg cb); [lra|].
+    destruct (Rlt_dec cbeta 0); [lra|].
+    pose proof (fix_identity lo hi cb 0 0 cb cbeta 0 i Tmin Tmax (Rle_refl _) (or_introl eq_refl) (fun _ => eq_refl) (fun _ => eq_refl)) as Hf.
+    unfold mkfx in Hf. rewrite Hf. unfold reduce_model.
+    rewrite (rs_cool lo hi) by (try lra; reflexivity). destruct (Rle_dec cb Tminseg); [lra|].
+    cbn. unfold Rltb. destruct (Rlt_dec cbeta 0); [lra | reflexivity].
+  - pose proof (fix_identity lo hi 0 0 0 0 0 0 i Tmin Tmax (Rle_refl _) (or_introl eq_refl) (fun _ => eq_refl) (fun _ => eq_refl)) as Hf.
+    unfold mkfx in Hf. rewrite Hf. unfold reduce_model.
+    rewrite (rs_tidd lo hi _ 0 0 0 0 0 0 i) by reflexivity. reflexivity.
+Qed.
+End Idem.
